@@ -132,6 +132,27 @@ def run(ctx):
         ctx.extra["max_records_per_bucket"] = max(ctx.extra.get("max_records_per_bucket", 0), max(maxrec.values() or [0]))
         ctx.rm(cache.rsplit("/", 1)[0])
     ctx.count("random_histories", nrand)
+    # ---------------- long buckets: tens to hundreds of records on one key
+    nlong = 6 if ctx.quick else 60
+    for h in range(nlong):
+        cache = ctx.new_cache()
+        key = rng.choice(["long-history", "длинная история", "a/b"])
+        nrec = rng.choice([26, 40, 70, 130] if ctx.quick else [26, 40, 70, 130, 300, 600])
+        steps = []
+        for j in range(nrec):
+            m = modes[(h + j) % len(modes)] if h % 2 else modes[h % len(modes)]
+            if rng.random() < 0.85:
+                steps.append(write_step(ctx, m, cache, key, rng.randrange(3), str(j).encode()))
+            else:
+                steps.append({"mode": m, "req": {"op": "remove", "cache": cache, "key": key}})
+            if j % 9 == 0 or j >= nrec - 3:
+                for pm in modes:
+                    steps.extend(probes(pm, cache, [key]))
+        model = run_history(ctx, "long-bucket", steps, f"L{h}")
+        ctx.case(distinct_key=("L", nrec, h % 2), sample={"kind": "long-bucket", "records": nrec, "key": key})
+        ctx.extra["max_records_per_bucket"] = max(ctx.extra.get("max_records_per_bucket", 0), nrec)
+        ctx.rm(cache.rsplit("/", 1)[0])
+    ctx.count("long_bucket_histories", nlong)
     ctx.extra["distinct_final_states_random"] = len(states)
 
 
